@@ -667,10 +667,21 @@ def inline_private_helpers(idx: Index, fi: FunctionInfo, depth: int = 2) -> Func
     m = fi.module
     count = [0]
 
+    nested: Dict[str, FunctionInfo] = {}
+    for n_ in ast.walk(fi.node):
+        if isinstance(n_, ast.FunctionDef) and n_ is not fi.node:
+            nested[n_.name] = FunctionInfo(name=n_.name, qualname=f"{fi.qualname}.<locals>.{n_.name}", module=m, node=n_, cls=None, decorators=[])
+    used_nested: Set[str] = set()
+
     def helper_of(call: ast.AST) -> Optional[FunctionInfo]:
         if not isinstance(call, ast.Call):
             return None
         fn = call.func
+        if isinstance(fn, ast.Name) and fn.id in nested:
+            if any(isinstance(a, ast.Starred) for a in call.args) or any(k.arg is None for k in call.keywords):
+                return None
+            used_nested.add(fn.id)
+            return nested[fn.id]
         name = fn.id if isinstance(fn, ast.Name) else fn.attr if isinstance(fn, ast.Attribute) and isinstance(fn.value, ast.Name) and fn.value.id in ("self", "cls") else None
         if name is None or not name.startswith("_") or (name.startswith("__") and name.endswith("__")) or name == fi.name:
             return None
@@ -739,6 +750,40 @@ def inline_private_helpers(idx: Index, fi: FunctionInfo, depth: int = 2) -> Func
                 for h in s.handlers:
                     h.body = process(h.body, level)
             rep = None
+            if level < depth and isinstance(s, (ast.Assign, ast.AugAssign, ast.Expr, ast.Return, ast.Assert)):
+                # hoist helper calls nested in an expression: `y = f(_h(a), b)` → `t = _h(a); y = f(t, b)` (analysis only)
+                top = s.value if isinstance(s, (ast.Assign, ast.AugAssign, ast.Expr, ast.Return)) else s.test
+                pre_h: List[ast.stmt] = []
+                if top is not None:
+                    skip = set()
+                    for q in ast.walk(top):
+                        if isinstance(q, (ast.ListComp, ast.GeneratorExp, ast.SetComp, ast.DictComp, ast.Lambda, ast.IfExp, ast.BoolOp)):
+                            for z in ast.walk(q):
+                                if z is not q:
+                                    skip.add(id(z))
+                    for q in list(ast.walk(top)):
+                        if q is top or id(q) in skip or not isinstance(q, ast.Call):
+                            continue
+                        g_ = helper_of(q)
+                        if g_ is None:
+                            continue
+                        sb_ = _simple_body(g_)
+                        if sb_ is None or (not sb_[0] and sb_[1] is not None):
+                            continue    # single-expression helpers are β-reduced by Sem.resolve
+                        count[0] += 1
+                        tname = f"_h{count[0]}__{g_.name.strip('_')}"
+                        pre_h.append(ast.copy_location(ast.Assign(targets=[ast.Name(id=tname, ctx=ast.Store())], value=copy.deepcopy(q), lineno=s.lineno), s))
+                        for par in ast.walk(s):
+                            for fld, v in ast.iter_fields(par):
+                                if v is q:
+                                    setattr(par, fld, ast.copy_location(ast.Name(id=tname, ctx=ast.Load()), q))
+                                elif isinstance(v, list):
+                                    for i_, x in enumerate(v):
+                                        if x is q:
+                                            v[i_] = ast.copy_location(ast.Name(id=tname, ctx=ast.Load()), q)
+                if pre_h:
+                    out += process(pre_h + [s], level)
+                    continue
             if level < depth:
                 if isinstance(s, ast.Assign) and len(s.targets) == 1 and helper_of(s.value) is not None:
                     tgt = s.targets[0]
@@ -754,8 +799,14 @@ def inline_private_helpers(idx: Index, fi: FunctionInfo, depth: int = 2) -> Func
         return out
 
     node = copy.deepcopy(fi.node)
-    node.body = process(node.body, 0)
+    # look helpers up in the copy (nested defs are part of it)
+    nested.clear()
+    for n_ in ast.walk(node):
+        if isinstance(n_, ast.FunctionDef) and n_ is not node:
+            nested[n_.name] = FunctionInfo(name=n_.name, qualname=f"{fi.qualname}.<locals>.{n_.name}", module=m, node=n_, cls=None, decorators=[])
+    node.body = process([s for s in node.body], 0)
     if count[0] == 0:
         return fi
+    node.body = [s for s in node.body if not (isinstance(s, ast.FunctionDef) and s.name in used_nested)]
     ast.fix_missing_locations(node)
     return FunctionInfo(name=fi.name, qualname=fi.qualname, module=fi.module, node=node, cls=fi.cls, decorators=list(fi.decorators))
